@@ -260,8 +260,9 @@ Proof. vm_compute. reflexivity. Qed.
 
 
 (* ======================================================================================
-   ZMQEventLoop (Model/ZmqLoop.v).  Same quantifiers.  The alarm, idle and exception clauses
-   hold as for the select loop; the watch clause does not: see zmq_watch_batch_refuted.
+   ZMQEventLoop (Model/ZmqLoop.v, the loop as repaired by fix 49c6c9d).  Same quantifiers.  All
+   clauses hold; the watch clause is stated with [zwatched] (remove_watch_file pops the callback
+   whatever it returns) and says nothing about the poller's registrations (see ZmqLoopSpec.v).
    ====================================================================================== *)
 Definition zhistory (setup : list action) (beh : behaviour) (env : list step) : list event :=
   rtrace (zs (fst (zscenario setup beh env))).
@@ -294,7 +295,8 @@ Theorem zmq_alarm_not_overslept_and_idle_before_quiescent :
        (forall h id, iset h id rest -> ~ iremoved h older -> exists t', In (EIdleCall h id t') batch)).
 Proof.
   intros setup beh env newer to regs t ready older E.
-  exact (proj1 (hist_ok_split _ _) (zscenario_hist_ok setup beh env) _ _ _ E).
+  pose proof (proj1 (hist_ok_split _ _) (zscenario_hist_ok setup beh env) _ _ _ E) as [H1 [H2 _]].
+  split; [exact H1|exact H2].
 Qed.
 Print Assumptions zmq_alarm_not_overslept_and_idle_before_quiescent.
 
@@ -334,54 +336,81 @@ Theorem zmq_removed_idle_not_called :
 Proof. intros. eapply zidle_removed_facts; [apply zscenario_hist_ok|eassumption]. Qed.
 Print Assumptions zmq_removed_idle_not_called.
 
-(* watch clause, the part that holds: a watch callback runs only as the callback currently
-   registered for its descriptor (so never after remove_watch_file, until registered again) *)
-Theorem zmq_watch_called_only_while_registered :
+(* watch clause: a watch callback runs only as the callback currently registered for its descriptor
+   and only for a descriptor that the most recent poll reported readable *)
+Theorem zmq_watch_until_removed :
   forall setup beh env newer fd id t older,
     zhistory setup beh env = newer ++ EWatchCall fd id t :: older ->
-    zwatched fd older = Some id.
+    zwatched fd older = Some id /\
+    exists batch to regs t0 rdy rest,
+      older = batch ++ ESelect to regs t0 rdy :: rest /\
+      (forall e, In e batch -> is_select e = false) /\ In fd rdy.
 Proof.
   intros setup beh env newer fd id t older E.
-  exact (proj1 (hist_ok_split _ _) (zscenario_hist_ok setup beh env) _ _ _ E).
+  pose proof (proj1 (hist_ok_split _ _) (zscenario_hist_ok setup beh env) _ _ _ E) as [H1 H2].
+  split; [exact H1|now apply zready_in_explicit].
 Qed.
-Print Assumptions zmq_watch_called_only_while_registered.
+Print Assumptions zmq_watch_until_removed.
 
-(* exception clause, the part that holds: a raise is the last event; ExitMainLoop <-> run() returns,
-   other exception <-> it leaves run(); in every other outcome no callback raised *)
+(* after remove_watch_file(fd), whatever it returned, no callback of fd runs until fd is registered
+   again: also inside the same ready batch *)
+Theorem zmq_watch_never_after_removal :
+  forall setup beh env newer fd ok older,
+    zhistory setup beh env = newer ++ ERmWatch fd ok :: older ->
+    forall n2 id t n1, newer = n2 ++ EWatchCall fd id t :: n1 -> exists id', In (EWatchSet fd id') n1.
+Proof. intros until older. intros E. eapply zwatch_removed_facts; [apply zscenario_hist_ok|eassumption]. Qed.
+Print Assumptions zmq_watch_never_after_removal.
+
+(* every descriptor reported readable by a poll is served before the next poll, unless its callback
+   was removed meanwhile or it had no callback when the poll was made *)
+Theorem zmq_watch_served_when_readable :
+  forall setup beh env newer to regs t ready older,
+    zhistory setup beh env = newer ++ ESelect to regs t ready :: older ->
+    forall batch to0 regs0 t0 rdy0 rest,
+      older = batch ++ ESelect to0 regs0 t0 rdy0 :: rest -> (forall e, In e batch -> is_select e = false) ->
+      forall fd, In fd rdy0 ->
+        (exists id t', In (EWatchCall fd id t') batch) \/ (exists ok, In (ERmWatch fd ok) batch) \/
+        zwatched fd rest = None.
+Proof.
+  intros setup beh env newer to regs t ready older E.
+  pose proof (proj1 (hist_ok_split _ _) (zscenario_hist_ok setup beh env) _ _ _ E) as [_ [_ H3]].
+  intros. eapply zbatch_done_explicit; eauto.
+Qed.
+Print Assumptions zmq_watch_served_when_readable.
+
+(* exception clause: a raise is the last event; ExitMainLoop <-> run() returns, other exception <->
+   it leaves run(); in every other outcome no callback raised; and run() never ends by an exception
+   that no callback raised (the KeyError of the same-batch removal is gone) *)
 Theorem zmq_exception_stops_loop :
   forall setup beh env,
     (forall a, In a setup -> action_raises a = false) ->
     match zresult setup beh env with
     | OReturned => exists r, zhistory setup beh env = ERaise true :: r /\ no_raise r
     | ORaised => exists r, zhistory setup beh env = ERaise false :: r /\ no_raise r
+    | OKeyError => False
     | _ => no_raise (zhistory setup beh env)
     end.
 Proof. exact zscenario_exceptions. Qed.
 Print Assumptions zmq_exception_stops_loop.
 
-(* The FULL watch / exception clauses for ZMQEventLoop would add: "run() ends by an exception only
-   if a callback raised" and "the ready batch is served unless removed".  They are FALSE of the
-   faithful model (and of the implementation: harness adapter scenario zmq/watch_sibling and the
-   proposed known finding C13-zmq-keyerror-same-batch): *)
-Definition zmq_run_ends_only_by_callback_exception_full : Prop :=
+Theorem zmq_run_ends_only_by_callback_exception :
   forall setup beh env, (forall a, In a setup -> action_raises a = false) ->
     zresult setup beh env <> OKeyError.
-
-Theorem zmq_watch_batch_refuted :
-  exists setup beh env,
-    (forall a, In a setup -> action_raises a = false) /\
-    (forall id n a, In a (beh id n) -> action_raises a = false) /\
-    zresult setup beh env = OKeyError /\
-    no_raise (zhistory setup beh env).
 Proof.
-  exists [AddWatch 7 20; AddWatch 8 21], (fun id _ => if id =? 20 then [RemoveWatch 8] else []), [mkStep 0 [7; 8]].
-  split; [|split; [|split]].
-  - intros a [<-|[<-|[]]]; reflexivity.
-  - intros id n a. destruct (id =? 20); [intros [<-|[]]; reflexivity|intros []].
-  - vm_compute. reflexivity.
-  - intros b H. vm_compute in H. intuition discriminate.
+  intros setup beh env Hs E. pose proof (zscenario_exceptions setup beh env Hs) as H.
+  unfold zresult in E. rewrite E in H. exact H.
 Qed.
-Print Assumptions zmq_watch_batch_refuted.
+Print Assumptions zmq_run_ends_only_by_callback_exception.
+
+(* the scenario that used to kill run() with KeyError (a callback removes the sibling watch that is
+   ready in the same batch): the sibling is skipped and the loop goes on *)
+Example zmq_same_batch_removal :
+  let r := zscenario [AddWatch 7 20; AddWatch 8 21] (fun id _ => if id =? 20 then [RemoveWatch 8] else []) [mkStep 0 [7; 8]; mkStep 0 []] in
+  snd r = OEnvEnd /\
+  rev (rtrace (zs (fst r))) =
+    [EWatchSet 7 20; EWatchSet 8 21; ESelect (Some 0) [7; 8] 0 [7; 8]; EWatchCall 7 20 0; ERmWatch 8 true;
+     ESelect (Some 0) [7] 0 []; ESelect None [7] 0 []].
+Proof. vm_compute. split; reflexivity. Qed.
 
 Example zmq_ex_history :
   rev (zhistory ex_setup ex_beh ex_env) =
